@@ -19,12 +19,14 @@ Section P.
   Definition start_of (rg : option (Z * Z)) : nat := match rg with None => O | Some (a, _) => Z.to_nat a end.
 
   (* the registry: right bytes from the requested offset, Content-Length of the whole blob on an unranged request,
-     Content-Range on a ranged one; a body may stop early (as EOF or unexpected EOF) only on attempts below k *)
+     Content-Range on a ranged one; a body may stop early (as EOF or unexpected EOF) only on attempts below k, and a
+     complete body ends with EOF *)
   Definition honest : Prop :=
     forall att rg, exists cl j e,
       srv att rg = RpOk cl true (firstn j (skipn (start_of rg) c)) e /\
       (rg = None -> cl = Some L) /\
-      e <> EndOther /\ ((j < length (skipn (start_of rg) c))%nat -> (att < k)%nat).
+      e <> EndOther /\ ((j < length (skipn (start_of rg) c))%nat -> (att < k)%nat) /\
+      ((length (skipn (start_of rg) c) <= j)%nat -> e = EndEOF).
 
   Hypothesis Hsrv : honest.
   Hypothesis Hbudget : (b0 + k < limit)%nat.
@@ -34,7 +36,7 @@ Section P.
   Definition Inv (s : rst) (out : list byte) : Prop :=
     r_alive s = true /\ r_done s = false /\ r_max s = L /\
     r_cur s = Z.of_nat (length out) /\ r_end s <> EndOther /\
-    (exists rest, c = out ++ r_body s ++ rest /\ (rest <> [] -> (r_att s <= k)%nat)) /\
+    (exists rest, c = out ++ r_body s ++ rest /\ (rest <> [] -> (r_att s <= k)%nat) /\ (rest = [] -> r_end s = EndEOF)) /\
     r_retry s = r_att s /\ (1 <= r_att s)%nat /\ (r_boff s + 1 <= b0 + r_att s)%nat.
 
   Definition measure (s : rst) (out : list byte) : nat := (length c - length out) + (k + 1 - r_att s).
@@ -54,13 +56,13 @@ Section P.
     r_cur s = Z.of_nat (length out) -> c = out ++ X ->
     (r_max s = L \/ (r_cur s = 0 /\ r_max s = 0)) ->
     exists body rest e,
-      X = body ++ rest /\ e <> EndOther /\ (rest <> [] -> (r_att s < k)%nat) /\
+      X = body ++ rest /\ e <> EndOther /\ (rest <> [] -> (r_att s < k)%nat) /\ (rest = [] -> e = EndEOF) /\
       next srv limit (fuel_of limit) s =
         (NOk, mkR (r_cur s) L (S (r_retry s)) (S (r_att s)) (r_boff s) true false body e, [range_of s]).
   Proof.
     intros Ha Hr Hc HX Hm.
     assert (Hlen : (length out <= length c)%nat) by (rewrite HX, app_length; lia).
-    destruct (Hsrv (r_att s) (range_of s)) as (cl & j & e & Hs & Hcl & He & Hj).
+    destruct (Hsrv (r_att s) (range_of s)) as (cl & j & e & Hs & Hcl & He & Hj & Hfull).
     assert (Hst : start_of (range_of s) = length out \/ (range_of s = None /\ (0 < r_cur s) /\ r_max s <= 0)).
     { unfold range_of. destruct (0 <? r_cur s) eqn:E1; cbn [andb].
       - destruct (0 <? r_max s) eqn:E2.
@@ -71,11 +73,14 @@ Section P.
     2:{ destruct Hm as [Hm|[Hm _]]; [|lia].
         exfalso. rewrite Hm in Hmx. unfold L in *. assert (H0 : length out = 0%nat) by lia.
         rewrite H0 in Hc. cbn in Hc. lia. }
-    rewrite Hst in Hs, Hj. rewrite HX, skipn_len_app in Hs, Hj.
+    rewrite Hst in Hs, Hj, Hfull. rewrite HX, skipn_len_app in Hs, Hj, Hfull.
     exists (firstn j X), (skipn j X), e. split; [symmetry; apply firstn_skipn|]. split; [exact He|].
     split.
     { intros Hne. apply Hj. destruct (Nat.lt_ge_cases j (length X)) as [Hlt|Hge]; [exact Hlt|].
       exfalso. apply Hne. now apply skipn_all2. }
+    split.
+    { intros Hnil. apply Hfull. destruct (Nat.lt_ge_cases j (length X)) as [Hlt|Hge]; [|exact Hge].
+      exfalso. assert (Hl : length (skipn j X) = 0%nat) by (rewrite Hnil; reflexivity). rewrite skipn_length in Hl. lia. }
     unfold fuel_of. cbn [next]. rewrite Ha. cbn [negb].
     replace (limit <? r_retry s)%nat with false by (symmetry; apply Nat.ltb_ge; lia).
     rewrite Hs.
@@ -97,11 +102,11 @@ Section P.
     set (s0 := mkR 0 expect 0 0 b0 true false [] EndEOF).
     assert (Hm : r_max s0 = L \/ (r_cur s0 = 0 /\ r_max s0 = 0)).
     { destruct He as [->| ->]; [left; reflexivity|right; split; reflexivity]. }
-    destruct (next_honest s0 [] c eq_refl (Nat.le_0_l _) eq_refl eq_refl Hm) as (body & rest & e & HX & He' & Hj & Hn).
+    destruct (next_honest s0 [] c eq_refl (Nat.le_0_l _) eq_refl eq_refl Hm) as (body & rest & e & HX & He' & Hj & Hfull & Hn).
     cbn [r_cur r_retry r_att r_boff s0] in Hn. change (range_of s0) with (@None (Z * Z)) in Hn.
     eexists. split; [exact Hn|].
     unfold Inv; cbn. repeat split; try reflexivity; try lia; try exact He'.
-    exists rest. split; [exact HX|]. intros Hne. specialize (Hj Hne). cbn in Hj. lia.
+    exists rest. split; [exact HX|]. split; [intros Hne; specialize (Hj Hne); cbn in Hj; lia|exact Hfull].
   Qed.
 
   (* one Read *)
@@ -110,7 +115,7 @@ Section P.
       ((e = UMore /\ Inv s' (out ++ bs) /\ ((0 < n)%nat -> (measure s' (out ++ bs) < measure s out)%nat)) \/
        (e = UEOF /\ out ++ bs = c /\ r_done s' = true)).
   Proof.
-    intros (Ha & Hd & Hm & Hc & He & (rest2 & HX & Hk) & Hr & H1 & Hb).
+    intros (Ha & Hd & Hm & Hc & He & (rest2 & HX & Hk & Hfl) & Hr & H1 & Hb).
     unfold read. rewrite Hd. remember (r_end s) as e0 eqn:Ee0 in *.
     set (bs := firstn n (r_body s)). set (rest := skipn n (r_body s)).
     assert (Hbody : r_body s = bs ++ rest) by (symmetry; apply firstn_skipn).
@@ -121,7 +126,7 @@ Section P.
               (rest <> [] \/ bs <> []) ->
               Inv s1 (out ++ bs) /\ ((0 < n)%nat -> (measure s1 (out ++ bs) < measure s out)%nat)).
     { intros s1 -> Hne. split.
-      - unfold Inv; cbn. repeat split; try assumption; try lia. exists rest2. split; [exact HX'|exact Hk].
+      - unfold Inv; cbn. repeat split; try assumption; try lia. exists rest2. split; [exact HX'|split; [exact Hk|exact Hfl]].
       - intros Hn. unfold measure; cbn. rewrite app_length.
         assert (0 < length bs)%nat.
         { destruct Hne as [Hne|Hne]; [|destruct bs; [congruence|cbn; lia]].
@@ -142,9 +147,9 @@ Section P.
     - (* everything expected has been handed out *)
       assert (rest2 = []).
       { destruct rest2; [reflexivity|]. exfalso. rewrite Hm in Emax. unfold L in Emax. cbn [length] in Hlc. lia. }
-      subst rest2. destruct e0; [| |congruence];
-        (eexists _, _, _, _; split; [reflexivity|]; right; split; [reflexivity|]; split; [|reflexivity];
-         rewrite HX'; cbn; now rewrite app_nil_r).
+      subst rest2. rewrite (Hfl eq_refl).
+      eexists _, _, _, _; split; [reflexivity|]; right; split; [reflexivity|]; split; [|reflexivity].
+      rewrite HX'; cbn; now rewrite app_nil_r.
     - (* short body: register a backoff, resume *)
       assert (Hr2 : rest2 <> []).
       { intro H0. subst rest2. rewrite Hm in Emax. unfold L in Emax. cbn [length] in Hlc. lia. }
@@ -158,11 +163,11 @@ Section P.
       assert (P2 : (r_retry s2 <= limit)%nat) by (cbn; lia).
       assert (P3 : r_cur s2 = Z.of_nat (length (out ++ bs))) by exact Hcur.
       assert (P4 : r_max s2 = L \/ (r_cur s2 = 0 /\ r_max s2 = 0)) by (left; exact Hm).
-      destruct (next_honest s2 (out ++ bs) rest2 P1 P2 P3 HX2 P4) as (body & rest3 & e & Hsplit & He3 & Hj & Hn).
+      destruct (next_honest s2 (out ++ bs) rest2 P1 P2 P3 HX2 P4) as (body & rest3 & e & Hsplit & He3 & Hj & Hfull & Hn).
       rewrite Hn. cbn [s2 r_cur r_retry r_att r_boff].
       eexists _, _, _, _; split; [reflexivity|]; left; split; [reflexivity|]; split;
          [unfold Inv; cbn; repeat split; try assumption; try lia;
-          exists rest3; split; [rewrite HX2, Hsplit; reflexivity|intro Hne; specialize (Hj Hne); cbn in Hj; lia]
+          exists rest3; split; [rewrite HX2, Hsplit; reflexivity|split; [intro Hne; specialize (Hj Hne); cbn in Hj; lia|exact Hfull]]
          |intros _; unfold measure; cbn; rewrite app_length; lia].
       }
       {
@@ -171,11 +176,11 @@ Section P.
       assert (P2 : (r_retry s2 <= limit)%nat) by (cbn; lia).
       assert (P3 : r_cur s2 = Z.of_nat (length (out ++ bs))) by exact Hcur.
       assert (P4 : r_max s2 = L \/ (r_cur s2 = 0 /\ r_max s2 = 0)) by (left; exact Hm).
-      destruct (next_honest s2 (out ++ bs) rest2 P1 P2 P3 HX2 P4) as (body & rest3 & e & Hsplit & He3 & Hj & Hn).
+      destruct (next_honest s2 (out ++ bs) rest2 P1 P2 P3 HX2 P4) as (body & rest3 & e & Hsplit & He3 & Hj & Hfull & Hn).
       rewrite Hn. cbn [s2 r_cur r_retry r_att r_boff].
       eexists _, _, _, _; split; [reflexivity|]; left; split; [reflexivity|]; split;
          [unfold Inv; cbn; repeat split; try assumption; try lia;
-          exists rest3; split; [rewrite HX2, Hsplit; reflexivity|intro Hne; specialize (Hj Hne); cbn in Hj; lia]
+          exists rest3; split; [rewrite HX2, Hsplit; reflexivity|split; [intro Hne; specialize (Hj Hne); cbn in Hj; lia|exact Hfull]]
          |intros _; unfold measure; cbn; rewrite app_length; lia].
       }
   Qed.
@@ -311,22 +316,24 @@ Proof.
   destruct (drain_safe byte c srv limit eager k b0 Hh Hb bufs s [] HI) as (rest & r & s' & l & Hd & Hres).
   exists s, rest, r, s', l. split; [exact Ho|]. split; [exact Hd|].
   destruct Hres as [(-> & HI')|(-> & Hc)]; [left|right; split; [reflexivity|exact Hc]].
-  split; [reflexivity|]. destruct HI' as (_ & _ & _ & _ & _ & (rest2 & HX & _) & _). cbn in HX. now exists (r_body s' ++ rest2).
+  split; [reflexivity|]. destruct HI' as (_ & _ & _ & _ & _ & (rest2 & HX & _ & _) & _). cbn in HX. now exists (r_body s' ++ rest2).
 Qed.
 
 (* the hypotheses are satisfiable: a registry that cuts the first two bodies after 3 bytes each *)
 Definition demo_blob : list nat := [10; 11; 12; 13; 14; 15; 16; 17]%nat.
 Definition demo_srv (att : nat) (rg : option (Z * Z)) : reply nat :=
   let rem := skipn (start_of rg) demo_blob in
-  RpOk (match rg with None => Some 8 | _ => None end) true (if (att <? 2)%nat then firstn 3 rem else firstn 8 rem)
-       (if (att <? 2)%nat then EndUnexpected else EndEOF).
+  let cut := (att <? 2)%nat && (3 <? length rem)%nat in
+  RpOk (match rg with None => Some 8 | _ => None end) true (if cut then firstn 3 rem else rem) (if cut then EndUnexpected else EndEOF).
 Lemma demo_honest : honest nat demo_blob demo_srv 2.
 Proof.
-  intros att rg. unfold demo_srv. destruct (att <? 2)%nat eqn:E.
-  - exists (match rg with None => Some 8 | _ => None end), 3%nat, EndUnexpected. split; [reflexivity|]. split; [intros ->; reflexivity|].
-    split; [discriminate|]. intros _. now apply Nat.ltb_lt.
-  - exists (match rg with None => Some 8 | _ => None end), 8%nat, EndEOF. split; [reflexivity|]. split; [intros ->; reflexivity|].
-    split; [discriminate|]. intros Hlt. exfalso. rewrite skipn_length in Hlt. change (length demo_blob) with 8%nat in Hlt. lia.
+  intros att rg. unfold demo_srv. set (rem := skipn (start_of rg) demo_blob).
+  destruct ((att <? 2)%nat && (3 <? length rem)%nat) eqn:E.
+  - apply andb_prop in E as [E1 E2]. apply Nat.ltb_lt in E1, E2.
+    exists (match rg with None => Some 8 | _ => None end), 3%nat, EndUnexpected. split; [reflexivity|]. split; [intros ->; reflexivity|].
+    split; [discriminate|]. split; [intros _; exact E1|]. intros Hge. lia.
+  - exists (match rg with None => Some 8 | _ => None end), (length rem), EndEOF. split; [now rewrite firstn_all|]. split; [intros ->; reflexivity|].
+    split; [discriminate|]. split; [intros Hlt; lia|reflexivity].
 Qed.
 Example demo_run :
   let '(_, s, _) := open demo_srv 4 8 0 in
